@@ -4,6 +4,7 @@ modes
   probe                                   print {"macros": [...]}: the level-0 arithmetic macros found in kernel.theory.global_macros
   vec  <vectors.ndjson> <out.ndjson>      spec -> code: every TLC-generated goal is given to EVERY trusted step as the one-step proof
                                           `0: <macro> goal` through theory.check_proof at the default trust level
+  all  <vectors> <out_vec> <out_rand> <n> <seed>   both of the following in one process
   rand <out.ndjson> <n> <seed>            seeded larger inputs: deeper mixed-type ground terms whose right-hand sides come from the code's
                                           OWN evaluators (nat_eval / int_eval / real_eval applied across types), near-equal rationals,
                                           decimal sums that force the float path of const_inequality, polynomial identities with free
@@ -331,7 +332,7 @@ def fam_pairs(log, rng, n):
         log.goal("pairs", rel(k, T, a, b) if rng.random() < 0.8 else neg(rel(k, T, a, b)))
 
 
-def fam_near(log, rng, n):
+def fam_near(log, rng, n, qs=(3, 7, 10, 6, 9, 11, 13)):
     """near-equal rationals that fit in 31 bits; thirds and sevenths that sum to integers"""
     T = "real"
     for _ in range(n):
@@ -345,7 +346,7 @@ def fam_near(log, rng, n):
         for k in rng.sample(RELS, 2):
             log.goal("near", rel(k, T, x, y))
         log.goal("near", neg(rel("equals", T, x, y)))
-    for q in (3, 7, 10, 6, 9, 11, 13):
+    for q in qs:
         for p in range(1, q):
             for form in (0, 1):
                 one = num(T, 1)
@@ -505,10 +506,11 @@ def fam_eqcmp(log, rng, n):
 def mode_rand(out_path, n, seed):
     rng = random.Random(seed * 7919 + 5)
     log = Log(out_path, trusted_macros())
+    small = n < 1000
     fam_odd(log, rng)
     fam_codeval(log, rng, n)
     fam_pairs(log, rng, n)
-    fam_near(log, random.Random(seed * 31 + 1), max(20, n // 10))
+    fam_near(log, random.Random(seed * 31 + 1), max(20, n // 10), qs=(3, 7, 10) if small else (3, 7, 10, 6, 9, 11, 13))
     fam_floaty(log, random.Random(seed * 31 + 2), max(30, n // 4))
     fam_big(log, random.Random(seed * 31 + 3), max(10, n // 20))
     fam_poly(log, random.Random(seed * 31 + 4), max(40, n // 3))
@@ -526,6 +528,9 @@ def main(argv):
         mode_vec(argv[1], argv[2])
     elif argv[0] == "rand":
         mode_rand(argv[1], int(argv[2]), int(argv[3]))
+    elif argv[0] == "all":      # vec + rand in one process (loading the theories is the expensive part)
+        mode_rand(argv[3], int(argv[4]), int(argv[5]))
+        mode_vec(argv[1], argv[2])
     else:
         raise SystemExit("unknown mode " + argv[0])
 
